@@ -10,7 +10,7 @@ from sa.astx import NotConst, call_attr, call_name, const_eval, module_consts, s
 from sa.domains import escaper_problems, replace_chain
 from sa.selftest import Mutant, Silent
 from sa.source import AnalysisError
-from sa.props._lib_f import InterpError, call_sites, interpret, module_patterns, named_calls, param_names
+from sa.props._lib_f import GenThunk, InterpError, MDeferred, ModelRaised, World, call_sites, interpret, module_patterns, named_calls, param_names
 
 PROPERTY = "C28"
 FL = "web/_flatten.py"
@@ -44,14 +44,13 @@ def check(ctx):
     MODULE_ENV.clear()
     MODULE_ENV.update(module_consts(ctx.mod(FL)))
     MODULE_ENV.update(module_patterns(ctx.mod(FL)))
-    with ctx.section("sinks"):
-        _sinks(ctx)
-    with ctx.section("recursion"):
-        _recursion(ctx)
+    with ctx.section("flatten"):
+        try:
+            _flatten_roundtrip(ctx)
+        except InterpError as e:
+            raise AnalysisError(f"C28/flatten: _flattenElement uses a construct the evaluator cannot interpret: {e}")
     with ctx.section("buffer"):
         _buffer(ctx)
-    with ctx.section("attribute-writer"):
-        _attr_writer(ctx)
     with ctx.section("escapers-structure"):
         _escaper_structure(ctx)
     with ctx.section("escapers-content"):
@@ -65,135 +64,226 @@ def check(ctx):
 
 
 # ---- (a) sinks ---------------------------------------------------------------------------------------
-def _name_locals(f):
-    """locals that hold a tag/attribute name: assigned from root.tagName / its .encode, or the key of root.attributes.items()"""
-    out = set()
-    for s in walk_local(f):
-        if isinstance(s, ast.Assign) and isinstance(s.targets[0], ast.Name):
-            v = src(s.value)
-            if v in ("root.tagName", "root.tagName.encode('ascii')") or (v.endswith(".encode('ascii')") and v[:-len(".encode('ascii')")] in out):
-                out.add(s.targets[0].id)
-        if isinstance(s, ast.For) and src(s.iter) == "root.attributes.items()" and isinstance(s.target, ast.Tuple):
-            out.add(src(s.target.elts[0]))
+# ---- (a) the flattener, evaluated ---------------------------------------------------------------------------------------------
+class Tag:
+    def __init__(self, tagName, attributes=None, children=None):
+        self.tagName, self.attributes, self.children = tagName, dict(attributes or {}), list(children or [])
+        self.render, self.slotData, self.filename, self.lineNumber, self.columnNumber = None, None, None, None, None
+
+    def clone(self, deep=True):
+        return Tag(self.tagName, self.attributes, self.children)
+
+
+class slot:
+    def __init__(self, name, default=None):
+        self.name, self.default, self.children = name, default, []
+
+
+class CDATA:
+    def __init__(self, data):
+        self.data = data
+
+
+class Comment:
+    def __init__(self, data):
+        self.data = data
+
+
+class CharRef:
+    def __init__(self, ordinal):
+        self.ordinal = ordinal
+
+
+for _c in (Tag, slot, CDATA, Comment, CharRef):
+    _c._sa_model = True
+
+VOID = ("img", "br", "hr", "base", "meta", "link", "param", "area", "input", "col", "basefont", "isindex", "frame", "command", "embed", "keygen", "source", "track", "wbs")
+
+
+def _flat_world(ctx):
+    ctx.func(FL, "_flattenElement")
+    stan = ctx.mod("web/_stan.py")
+    void = module_consts(stan).get("voidElements", VOID)
+    env = {"Tag": Tag, "slot": slot, "CDATA": CDATA, "Comment": Comment, "CharRef": CharRef, "voidElements": void, "Deferred": MDeferred,
+           "GeneratorType": type(x for x in ()), "BUFFER_SIZE": 65536}
+    ext = {"nativeString": lambda s_: s_.decode("ascii") if isinstance(s_, bytes) else s_, "IRenderable.providedBy": lambda o: False, "iscoroutine": lambda o: False,
+           "_fork": lambda d: d, "cast": lambda t, v: v}
+    return World(ctx.mod(FL), externals=ext, env=env)
+
+
+def _flatten(w, root):
+    """depth-first trampoline (what _flattenTree does): every yielded generator is run to completion before its parent continues"""
+    out = []
+
+    def hook(v):
+        if isinstance(v, GenThunk):
+            v.run(hook)
+        elif isinstance(v, MDeferred):
+            v.addCallback(lambda r: (hook(r), r)[1])
+    thunk = w.funcs["_flattenElement"](None, root, out.append, [], None, w.funcs["escapeForContent"])
+    thunk.run(hook)
+    return b"".join(out)
+
+
+class _Doc:
+    """what an XML parser sees: (tag, {attr: value}, [children]) / text / ('cdata', text)"""
+
+
+def _parse(doc: bytes):
+    import xml.dom.minidom as md
+    dom = md.parseString(b"<root>" + doc + b"</root>")
+
+    def conv(n):
+        if n.nodeType == n.TEXT_NODE:
+            return n.data
+        if n.nodeType == n.CDATA_SECTION_NODE:
+            return ("cdata", n.data)
+        if n.nodeType == n.COMMENT_NODE:
+            return ("comment",)
+        return (n.tagName, {k: v for k, v in n.attributes.items()}, _merge([conv(c) for c in n.childNodes]))
+    return _merge([conv(c) for c in dom.documentElement.childNodes])
+
+
+def _merge(items):
+    out = []
+    for it in items:
+        if isinstance(it, str) and out and isinstance(out[-1], str):
+            out[-1] += it
+        elif isinstance(it, tuple) and it[0] == "cdata" and out and isinstance(out[-1], tuple) and out[-1][0] == "cdata":
+            out[-1] = ("cdata", out[-1][1] + it[1])
+        elif it != "":
+            out.append(it)
     return out
 
 
-def _sinks(ctx):
-    f = ctx.func(FL, "_flattenElement")
-    g = ctx.cfg(f)
+def _expected(node, slots=None):
+    slots = slots or {}
+    if isinstance(node, bytes):
+        return [node.decode("utf-8")]
+    if isinstance(node, str):
+        return [node]
+    if isinstance(node, (list, tuple)):
+        return _merge([x for c in node for x in _expected(c, slots)])
+    if isinstance(node, CharRef):
+        return [chr(node.ordinal)]
+    if isinstance(node, CDATA):
+        return [("cdata", node.data if isinstance(node.data, str) else node.data.decode())] if node.data else []
+    if isinstance(node, Comment):
+        return [("comment",)]
+    if isinstance(node, slot):
+        return _expected(slots.get(node.name, node.default), slots)
+    if isinstance(node, MDeferred):
+        return _expected(node.result, slots)
+    if isinstance(node, Tag):
+        sl = dict(slots)
+        sl.update(node.slotData or {})
+        if not node.tagName:
+            return _expected(node.children, sl)
+        attrs = {}
+        for k, v in node.attributes.items():
+            attrs[k if isinstance(k, str) else k.decode()] = _attr_text(v, sl)
+        return [(node.tagName if isinstance(node.tagName, str) else node.tagName.decode(), attrs, _merge(_expected(node.children, sl)))]
+    raise AssertionError(node)
+
+
+def _attr_text(v, slots):
+    """an attribute value is the serialisation of its content (markup inside an attribute is text)"""
+    parts = []
+    for item in _expected(v, slots):
+        parts.append(item if isinstance(item, str) else _serialise(item))
+    return "".join(parts)
+
+
+def _serialise(item):
+    if isinstance(item, str):
+        return html.escape(item, quote=False)
+    if item[0] == "cdata":
+        return "<![CDATA[" + item[1] + "]]>"
+    if item[0] == "comment":
+        return "<!---->"
+    tag, attrs, children = item
+    a = "".join(f' {k}="{html.escape(v, quote=True).replace("&#x27;", chr(39))}"' for k, v in attrs.items())
+    if not children and tag in VOID:
+        return f"<{tag}{a} />"
+    return f"<{tag}{a}>" + "".join(_serialise(c) for c in children) + f"</{tag}>"
+
+
+HOSTILE = ["plain", "<b>x</b>", "a & b", "a &amp; b", "\"q\" 'p'", "x > y < z", "]]>", "--><script>", "&#34;", "</p><p>", "\u00e9\u4e2d", b"bytes <&> \"", "a\"onload=\"x", ""]
+
+
+def _trees():
+    fired = MDeferred()
+    fired.callback("deferred <text> & \"more\"")
+    out = []
+    for h in HOSTILE:
+        out.append(Tag("p", {}, [h]))
+        out.append(Tag("a", {"href": h, "title": "t"}, ["x"]))
+        out.append(Tag("div", {"data-x": Tag("b", {"k": h}, [h])}, []))
+        out.append(Tag("p", {}, [slot("s")]).__class__("p", {}, [slot("s", default=h)]))
+        if isinstance(h, str):
+            out.append(Tag("p", {}, [CDATA(h), "tail"]))
+    out += [Tag("p", {}, ["a", CharRef(38), CharRef(60), "b"]), Tag("br"), Tag("img", {"alt": "<x>"}), Tag("p", {}, [Tag("", {}, ["inner <t>", Tag("i", {}, ["&"])])]),
+            Tag("ul", {}, [[Tag("li", {}, [str(i), "<"]) for i in range(3)], ("t1", "t2")]), Tag("p", {}, [fired]), Tag("p", {b"id": b"x&y"}, [b"<bytes>"]),
+            Tag("p", {}, [Comment("fine comment"), "after"]), Tag("span", {"a": ["l1", "<l2>", Tag("q")]}, [])]
+    t = Tag("p", {"title": slot("who")}, ["hello ", slot("who"), slot("missing", default="dflt")])
+    t.slotData = {"who": "<World> & \"co\""}
+    out.append(t)
+    return out
+
+
+def _describe(t):
+    if isinstance(t, Tag):
+        return f"Tag({t.tagName!r}, {{{', '.join(f'{k!r}: {_describe(v)}' for k, v in t.attributes.items())}}}, [{', '.join(_describe(c) for c in t.children)}])"
+    if isinstance(t, (CDATA, Comment)):
+        return f"{type(t).__name__}({t.data!r})"
+    if isinstance(t, slot):
+        return f"slot({t.name!r}, default={_describe(t.default)})"
+    if isinstance(t, CharRef):
+        return f"CharRef({t.ordinal})"
+    if isinstance(t, (list, tuple)):
+        return "[" + ", ".join(_describe(c) for c in t) + "]"
+    if isinstance(t, MDeferred):
+        return f"Deferred({_describe(t.result)})"
+    return repr(t)
+
+
+def _flatten_roundtrip(ctx):
+    w = _flat_world(ctx)
     q = Q + "_flattenElement"
-    names = _name_locals(f)
-    ctx.need(len(names) >= 2, "tagName / attribute key locals in _flattenElement")
-    writes = call_sites(g, lambda c: isinstance(c.func, ast.Name) and c.func.id == "write")
-    ctx.floor("sink/provenance", len(writes), 14)
-    kinds = {}
-    for n, c in writes:
-        a = c.args[0] if len(c.args) == 1 else None
-        k = "BAD"
-        if a is None:
-            pass
-        elif _const(a) is not None:
-            k = "literal" if _const(a) in MARKUP_LITERALS else "BAD-literal"
-        elif isinstance(a, ast.Call) and isinstance(a.func, ast.Name) and a.func.id == "dataEscaper" and [src(x) for x in a.args] == ["root"]:
-            k = "escaped-text"
-        elif isinstance(a, ast.Call) and call_name(a) == "escapedCDATA" and [src(x) for x in a.args] == ["root.data"]:
-            k = "cdata"
-        elif isinstance(a, ast.Call) and call_name(a) == "escapedComment" and [src(x) for x in a.args] == ["root.data"]:
-            k = "comment"
-        elif isinstance(a, ast.Name) and a.id in names:
-            k = "name"
-        elif isinstance(a, ast.BinOp):
-            terms, e = [], a
-            while isinstance(e, ast.BinOp) and isinstance(e.op, ast.Add):
-                terms.insert(0, e.right)
-                e = e.left
-            terms.insert(0, e)
-            if all(_const(t) in (b" ", b'="', b"</", b">") or (isinstance(t, ast.Name) and t.id in names) for t in terms):
-                k = "name-markup:" + "".join((_const(t).decode() if _const(t) is not None else "N") for t in terms)
-        elif isinstance(a, ast.Call) and call_attr(a) == "encode" and isinstance(a.func.value, ast.Name):
-            defs = [s for s in walk_local(f) if isinstance(s, ast.Assign) and src(s.targets[0]) == a.func.value.id]
-            if len(defs) == 1 and isinstance(defs[0].value, ast.BinOp) and isinstance(defs[0].value.op, ast.Mod) and _const(defs[0].value.left) == "&#%d;" and \
-                    src(defs[0].value.right) in ("(root.ordinal,)", "root.ordinal"):
-                k = "charref"
-        kinds[n] = k
-        ctx.check(not k.startswith("BAD"), "sink/provenance", ctx.construct(q, c),
-                  "content reaches the output without passing the escaper of its context (text, CDATA, comment) - a string could open or close markup")
-        # context: which isinstance(root, T) branch
-        guards = [src(g.node(t).ast) for t, lab in g.edge_guards(n) if lab == "T"]
-        want = {"escaped-text": "isinstance(root, (bytes, str))", "cdata": "isinstance(root, CDATA)", "comment": "isinstance(root, Comment)", "charref": "isinstance(root, CharRef)"}.get(k)
-        if want:
-            ctx.check(want in guards, "sink/context", ctx.construct(q, c), f"this write is not confined to the `{want}` branch")
-    # bracketing
-    def lit(v):
-        return [n for n, c in writes if c.args and _const(c.args[0]) == v]
-    for kind, op, cl, name in (("cdata", b"<![CDATA[", b"]]>", "CDATA"), ("comment", b"<!--", b"-->", "Comment")):
-        body = [n for n in kinds if kinds[n] == kind]
-        ctx.check(len(body) == 1, "sink/bracketing", q + f" | {name}", f"{name} data is written at {len(body)} sites (one expected)")
-        for b in body:
-            opens = [n for n in lit(op) if f"isinstance(root, {name})" in [src(g.node(t).ast) for t, lab in g.edge_guards(n) if lab == "T"]]
-            closes = [n for n in lit(cl) if f"isinstance(root, {name})" in [src(g.node(t).ast) for t, lab in g.edge_guards(n) if lab == "T"]]
-            ok = len(opens) == 1 and len(closes) == 1 and g.must_precede(opens, [b]) is None and g.must_pass([b], closes, exc=False) is None and g.path(closes, [b], strict=True) is None
-            ctx.check(ok, "sink/bracketing", ctx.construct(q, g.node(b).ast), f"{name} data is not written between exactly one opening and one closing delimiter, in that order")
-    # attribute value
-    kg = call_sites(g, lambda c: isinstance(c.func, ast.Name) and c.func.id == "keepGoing")
-    loops = [s for s in walk_local(f) if isinstance(s, ast.For) and src(s.iter) == "root.attributes.items()"]
-    ctx.need(len(loops) == 1 and isinstance(loops[0].target, ast.Tuple), "for k, v in root.attributes.items()")
-    kname, vname = [src(e) for e in loops[0].target.elts]
-    attr = [(n, c) for n, c in kg if c.args and src(c.args[0]) == vname]
-    ctx.check(len(attr) == 1, "attribute/escaped-outside", q, f"attribute values are flattened at {len(attr)} sites (one expected)")
-    for n, c in attr:
-        kw = {k.arg: k.value for k in c.keywords}
-        esc = c.args[1] if len(c.args) > 1 else kw.get("dataEscaper")
-        w = kw.get("write")
-        ok = w is not None and isinstance(w, ast.Call) and call_name(w) == "writeWithAttributeEscaping" and [src(x) for x in w.args] == ["write"]
-        ctx.check(ok, "attribute/escaped-outside", ctx.construct(q, c),
-                  "an attribute value is flattened with a writer that does not escape for attributes: a double quote or '<' in the value (or in nested tags) ends the attribute")
-        ctx.check(esc is not None and src(esc) == "attributeEscapingDoneOutside", "attribute/escaped-outside", ctx.construct(q, c) + " | inner escaper",
-                  "the inner escaper of an attribute value is not attributeEscapingDoneOutside (text would be escaped twice and not parse back to the same value)")
-        opens = [m for m in kinds if kinds[m] == 'name-markup: N="']
-        closes = [m for m, c2 in writes if c2.args and _const(c2.args[0]) == b'"']
-        ok = len(opens) == 1 and len(closes) == 1 and g.must_precede(opens, [n]) is None and g.must_pass([n], closes, exc=False) is None and \
-            g.path(opens, closes, avoid=[n], strict=True) is None
-        ctx.check(ok, "attribute/quoted", ctx.construct(q, c) + " | quotes", "the attribute value is not written between ` name=\"` and the closing double quote")
-    # children reset to escapeForContent
-    ch = [(n, c) for n, c in kg if c.args and src(c.args[0]) == "root.children" and any(src(g.node(t).ast) == "root.tagName" and lab == "T" for t, lab in g.edge_guards(n))]
-    ctx.check(len(ch) == 1, "children/content-escaper", q, "the children of a named tag are not flattened at exactly one site")
-    for n, c in ch:
-        kw = {k.arg: k.value for k in c.keywords}
-        esc = c.args[1] if len(c.args) > 1 else kw.get("dataEscaper")
-        ctx.check(esc is not None and src(esc) == "escapeForContent" and "write" not in kw, "children/content-escaper", ctx.construct(q, c),
-                  "children of a tag do not switch back to escapeForContent (text inside a tag inside an attribute would lose one level of quoting)")
-        gt = [m for m, c2 in writes if c2.args and _const(c2.args[0]) == b">"]
-        end = [m for m in kinds if kinds[m] == "name-markup:</N>"]
-        ok = len(end) == 1 and g.must_precede(gt, [n]) is None and g.must_pass([n], end, exc=False) is None
-        ctx.check(ok, "children/content-escaper", ctx.construct(q, c) + " | inside the element", "children are not written between `>` and the end tag")
-    # any other explicit escaper / writer override
-    for n, c in kg:
-        if (n, c) in attr or (n, c) in ch:
+    bad = []
+    n = 0
+    for tree in _trees():
+        n += 1
+        want = _expected(tree)
+        try:
+            doc = _flatten(w, tree)
+        except ModelRaised as e:
+            bad.append((tree, f"raises {e.name}", None))
             continue
-        kw = {k.arg: k.value for k in c.keywords}
-        ok = len(c.args) == 1 and set(kw) <= {"renderFactory"}
-        ctx.check(ok, "recursion/no-escaper-override", ctx.construct(q, c), "a recursive flattening step overrides the escaper / writer of its context")
-    ctx.floor("recursion/no-escaper-override", len(kg), 7)
-
-
-def _recursion(ctx):
-    f = ctx.func(FL, "_flattenElement")
-    kgf = ctx.func(FL, "_flattenElement.keepGoing")
-    q = Q + "_flattenElement.keepGoing"
-    outer = param_names(f)
-    rets = [s for s in walk_local(kgf) if isinstance(s, ast.Return)]
-    ok = len(rets) == 1 and isinstance(rets[0].value, ast.Call) and call_name(rets[0].value) == "_flattenElement"
-    if ok:
-        args = [src(a) for a in rets[0].value.args]
-        ok = args == [outer[0], param_names(kgf)[0]] + outer[2:]
-    ctx.check(ok, "recursion/forwarding", q, "keepGoing does not forward (request, newRoot, write, slotData, renderFactory, dataEscaper) in the parameter order of _flattenElement")
-    defaults = {a.arg: src(d) for a, d in zip(kgf.args.args[-len(kgf.args.defaults):], kgf.args.defaults)} if kgf.args.defaults else {}
-    ctx.check(all(defaults.get(k) == k for k in ("dataEscaper", "renderFactory", "write")), "recursion/forwarding", q + " | defaults",
-              "keepGoing's escaper / writer do not default to those of the enclosing context")
+        try:
+            got = _parse(doc)
+        except Exception as e:
+            bad.append((tree, f"is flattened to {doc!r}, which is not well-formed ({str(e)[:60]})", None))
+            continue
+        if got != want:
+            bad.append((tree, f"is flattened to {doc!r}, which parses as {got!r}", want))
+    msg = ""
+    if bad:
+        t, why, want = bad[0]
+        msg = f"{_describe(t)} {why}" + (f" instead of {want!r}" if want is not None else "") + f": content became markup (or was altered); {len(bad)} of {n} trees wrong"
+    ctx.check(not bad, "flatten/parses-back", q, msg, detail=f"{n} element trees")
+    ctx.extra["trees_flattened"] = n
+    # delimiters of CDATA / comments, void elements
+    for tree, want in ((Tag("p", {}, [Comment("c")]), b"<p><!--c--></p>"), (Tag("p", {}, [CDATA("d")]), b"<p><![CDATA[d]]></p>"), (Tag("br"), b"<br />"), (Tag("p"), b"<p></p>"),
+                       (Tag("br", {}, ["x"]), b"<br>x</br>")):
+        try:
+            doc = _flatten(w, tree)
+        except ModelRaised as e:
+            doc = f"raises {e.name}"
+        ctx.check(doc == want, "flatten/markup-shape", q + f" | {_describe(tree)}", f"{_describe(tree)} is flattened to {doc!r} instead of {want!r}")
     ft = ctx.func(FL, "_flattenTree")
     starts = [c for c in walk_local(ft) if isinstance(c, ast.Call) and call_name(c) == "_flattenElement"]
-    ok = len(starts) == 1 and len(starts[0].args) == 6 and src(starts[0].args[5]) == "escapeForContent" and src(starts[0].args[1]) == param_names(ft)[1] and src(starts[0].args[2]) == "bufferedWrite"
+    ok = len(starts) == 1 and any(src(a) == "escapeForContent" for a in list(starts[0].args) + [k.value for k in starts[0].keywords])
     ctx.check(ok, "recursion/top-level-escaper", Q + "_flattenTree", "flattening does not start in the content-escaping context")
 
 
@@ -239,13 +329,6 @@ def _buffer(ctx):
     ctx.check(w is None and bool(final), "recursion/buffer-order", q[:-1] + " | final flush", "flattening can finish with output still in the buffer", witness=g3.describe(w))
     others = [c for c in walk_local(ft) if isinstance(c, ast.Call) and isinstance(c.func, ast.Name) and c.func.id == up]
     ctx.check(not others, "recursion/buffer-order", q[:-1] + " | no direct writes", "_flattenTree writes to the upstream writer around the buffer")
-
-
-def _attr_writer(ctx):
-    ww = ctx.func(FL, "writeWithAttributeEscaping")
-    rets = [s for s in walk_local(ww) if isinstance(s, ast.Return)]
-    inner = ctx.func(FL, "writeWithAttributeEscaping._write")
-    ctx.check(len(rets) == 1 and src(rets[0].value) == inner.name, "attribute/escaped-outside", Q + "writeWithAttributeEscaping", "the escaping writer is not what is returned")
 
 
 # ---- (b) escapers ----------------------------------------------------------------------------------------
@@ -385,7 +468,7 @@ def _escaper_cdata(ctx):
     bad = []
     n = 0
     try:
-        for s in _strings(["]", ">", "a", "<", "["], 5):
+        for s in list(_strings(["]", ">", "a", "<", "["], 4)) + ["]]]>", "]]>]]>", "a]]>b]]>", "]]]]>>", "]>]]>", "]]>]", "<![CDATA[]]>"]:
             n += 1
             out = _run(f, s if n % 2 else s.encode())
             got = _parse_cdata(b"<![CDATA[" + out + b"]]>") if isinstance(out, bytes) else None
@@ -482,7 +565,7 @@ def _escaper_comment(ctx):
     early, xml = [], []
     n = 0
     try:
-        for s in _strings(["-", ">", "!", "<", "a"], 5):
+        for s in list(_strings(["-", ">", "!", "<", "a"], 4)) + ["a--!>", "--!>a", "<!--a", "a-->b", "--->", "a---", "-->-->", "a--!a"]:
             n += 1
             out = _run(f, s if n % 2 else s.encode())
             if not isinstance(out, bytes):
@@ -533,6 +616,8 @@ MUTANTS = [
     Mutant("comment-close-before-data", FL, "        write(b\"<!--\")\n        write(escapedComment(root.data))\n        write(b\"-->\")", "        write(b\"<!--\")\n        write(b\"-->\")\n        write(escapedComment(root.data))"),
 ]
 SILENT = [
+    Silent("dispatch-as-guard-clauses-with-inlined-temporaries", FL, "    if isinstance(root, (bytes, str)):\n        write(dataEscaper(root))\n    elif isinstance(root, slot):\n        slotValue = _getSlotValue(root.name, slotData, root.default)\n        yield keepGoing(slotValue)\n    elif isinstance(root, CDATA):",
+           "    if isinstance(root, (bytes, str)):\n        write(dataEscaper(root))\n        return\n    if isinstance(root, slot):\n        yield keepGoing(_getSlotValue(root.name, slotData, root.default))\n        return\n    if isinstance(root, CDATA):"),
     Silent("content-escaper-by-regex-table", FL, "    data = data.replace(b\"&\", b\"&amp;\").replace(b\"<\", b\"&lt;\").replace(b\">\", b\"&gt;\")",
            "    for old, new in ((b\"&\", b\"&amp;\"), (b\"<\", b\"&lt;\")):\n        data = new.join(data.split(old))\n    data = b\"&gt;\".join(data.split(b\">\"))"),
     Silent("large-chunk-flushes-first", FL, "        nonlocal bufSize\n        buf.append(bs)\n        bufSize += len(bs)\n", "        nonlocal bufSize\n        if len(bs) > BUFFER_SIZE:\n            flushBuffer()\n            write(bs)\n            return\n        buf.append(bs)\n        bufSize += len(bs)\n"),
